@@ -29,6 +29,13 @@ PASSWORDS = [b"", b"p", b"password", b"\x00", b"\x00\x00pw\x00", b"\xff\xfe\x80 
 IDS = [b"", b"alice", b"bob", b"\x00", b"a" * 70, b"\xc3\xa9\xff", b"ab", b"c", b"a", b"bc"]
 
 TOY_INT = [(23, 11, 2), (23, 11, 4), (47, 23, 2), (59, 29, 4), (2039, 1019, 4), (263, 131, 2), (1019, 509, 4)]
+# a custom group of cryptographic shape whose widths are NOT those of the shipped sets: q is the first prime after
+# 2^300 + 0x5eed (301 bits = 38 bytes: wider than 32 bytes, not a multiple of 8 or of 4 bits), p = k*q + 1 the first
+# such prime of 523 bits (66 bytes, top byte 0x04), g = 2^((p-1)/q) mod p.  Behaviour keyed on "scalars are at most 32
+# bytes", "bit lengths are byte aligned" or "bit lengths are nibble aligned" shows here and on no shipped set.
+MID_INT = [(13729595320261219429963801598162786434538870600286610818788926918525901100996733046801685225137451462200634615488638700839962737402035742696138522548244331221,
+            2037035976334486086268445688409378161051468393665936250636140449354381299763336706183421719,
+            9903118368980371843696873690165242584634260922441104284303083016725058811600591328431048748429239354146456237626896913259803046431817933999281884176650962541)]
 
 
 def harvest_constants():
@@ -77,7 +84,7 @@ class PS:
 
 
 class World:
-    def __init__(self, rng, want=("shipped", "custom", "toyint", "toyed")):
+    def __init__(self, rng, want=("shipped", "custom", "midint", "toyint", "toyed")):
         self.rng = rng
         self.im = Impl()
         self.prelude = []
@@ -118,6 +125,16 @@ class World:
             self.ps["edgen"] = self.mkps(pid, gid, "ed", "edgen")
             gid += 1
             pid += 1
+        if "midint" in want:
+            for (p, q, g) in MID_INT:
+                name = "mid%d_%d" % (p.bit_length(), q.bit_length())
+                if self.pre("group %d int %d %d %d" % (gid, p, q, g)) == "ok":
+                    self.groups[name] = gid
+                    self.gs[name] = self.mkps(None, gid, "int", name, pqg=(p, q, g))
+                    if self.pre("params %d %d 4d 4e 73796d6d6574726963" % (pid, gid)) == "ok":
+                        self.ps[name] = self.mkps(pid, gid, "int", name, seeds=(b"M", b"N", b"symmetric"), pqg=(p, q, g))
+                    pid += 1
+                gid += 1
         if "toyint" in want:
             for (p, q, g) in TOY_INT:
                 out = self.pre("group %d int %d %d %d" % (gid, p, q, g))
@@ -196,7 +213,9 @@ class World:
 
     def base_edges(self, ps):
         q = ps.q
-        return [0, 1, 2, q - 1, q - 2, (q - 1) // 2, (q + 1) // 2]
+        # the top bit of the order: scalars in [2^(bits-1), q) are the ones a loop over "bits - 1" positions truncates
+        top = 1 << (q.bit_length() - 1)
+        return [0, 1, 2, q - 1, q - 2, (q - 1) // 2, (q + 1) // 2, top % q, (top + 1) % q, top - 1]
 
     def edge_scalars(self, ps):
         """base edge scalars first, then magic values written in the source (and neighbours), reduced into [0, q)"""
@@ -205,6 +224,9 @@ class World:
         for c in HARVEST_INTS:
             if 2 < c:
                 extra += [c % q, (c + 1) % q, (c - 1) % q]
+            if 8 <= c <= 4096:
+                # a small literal may be a bit count / window size: scalars at that power of two
+                extra += [(1 << c) % q, ((1 << c) + 1) % q, ((1 << c) - 1) % q]
         seen, out = set(), []
         for v in self.base_edges(ps) + extra:
             if v not in seen:
